@@ -40,6 +40,11 @@ def gen(rng, index, tier):
     else:
         case["config"] = rng.choice(biocommon.STARTER_CONFIGS)
         case["amo"] = rng.random() < 0.4
+        if rng.random() < 0.1 and not meta.get("big"):
+            # penalties not exactly representable in binary: the float bookkeeping drifts by a few ulps (far below the
+            # 0.001 threshold, far below 1/scale): only the predicate (local optimality of what is returned, evaluated
+            # exactly) is checked, not the model's run, whose tie-breaks the drift may change
+            case["scheme"] = lib.gen_scheme(rng, family="decimal")
     return case
 
 
@@ -136,6 +141,8 @@ def ops(case, out):
     if case["kind"] == "run":
         if "rankings" not in out:
             return []
+        if case["scheme"]["family"] == "decimal":
+            return [("c08.holds", [S, [out["obs"], [lib.tau(case["scheme"]), out["rankings"]]]])]
         res = [("bio.run", [S, [out["obs"], [out["starters_cons"], [int(case["amo"]), [lib.tau(case["scheme"]), FUEL]]]]])]
         res.append(("c08.holds", [S, [out["obs"], [lib.tau(case["scheme"]), out["rankings"]]]]))
         return res
@@ -174,6 +181,9 @@ def judge(case, out, answers):
                 return {"agree": True, "holds": True, "diff": "", "nontrivial": False, "tags": tags + ["refused-by-starter"]}
             return {"agree": False, "holds": False, "diff": "run failed: %s" % out.get("run_err"),
                     "nontrivial": False, "tags": tags + ["run-error"]}
+        if case["scheme"]["family"] == "decimal":
+            return {"agree": True, "holds": bool(answers[0]), "nontrivial": True, "tags": tags + ["predicate-only"],
+                    "diff": "" if answers[0] else "a returned ranking is not a local optimum: %s" % out["rankings"]}
         mr, ms, mres, mdeps = answers[0]
         if common.canon_list(mr) != common.canon_list(out["rankings"]):
             diff.append("consensus: model %s impl %s" % (common.canon_list(mr), common.canon_list(out["rankings"])))
